@@ -4,7 +4,8 @@ from .. import common, pool, pipefam
 
 RULE = ("scripts of environment answers (stop? -> bool, get -> job|empty|sentinel, put -> ok|full) executed on the real "
         "WorkerProcess.run() in-thread with stub queues and on the Coq model; exhaustive over well-typed scripts up to length L "
-        "(L=10 quick, 13 thorough) plus random scripts up to length 40 with ill-typed answers; plus a real WorkerProcess with real multiprocessing queues (large results, late consumer, bounded output queue); non-trivial = at least one job taken "
+        "(L=10 quick, 13 thorough) plus random scripts up to length 40 with ill-typed answers; plus two real WorkerProcess objects sharing queues and stop signal, the sibling run to its end while the first is inside execute_job (15 schedules); "
+        "plus a real WorkerProcess with real multiprocessing queues (large results, late consumer, bounded output queue); non-trivial = at least one job taken "
         "and one queue-full or queue-empty answer; distinct = the script")
 
 
@@ -116,6 +117,29 @@ def property_failures(script, tr):
     return fails
 
 
+def sibling_failures(case, tr):
+    """two workers, nobody signals stop: every job taken by either gives exactly one result, each worker's results in the order
+    it took the jobs, both return, the sentinel stays in the job queue for further siblings"""
+    fails = []
+    want = sorted(j + 100 for who in ("A", "B") for j in tr["taken"][who])
+    if sorted(tr["accepted"]) != want:
+        fails.append({"kind": "siblings_results_not_one_per_job_taken", "taken": tr["taken"], "accepted": tr["accepted"]})
+    for who in ("A", "B"):
+        mine = [x for x in tr["accepted"] if x - 100 in tr["taken"][who]]
+        if mine != [j + 100 for j in tr["taken"][who]][:len(mine)]:
+            fails.append({"kind": "sibling_results_out_of_order", "worker": who, "taken": tr["taken"][who], "accepted": mine})
+    for who in ("A", "B"):
+        if who in tr["exited"] and tr["exited"][who] != "returned":
+            fails.append({"kind": "sibling_died", "worker": who, "how": tr["exited"][who]})
+    if tr["sentinels_left"] != 1:
+        fails.append({"kind": "sentinel_not_left_for_siblings", "n": tr["sentinels_left"]})
+    if tr["stop_set"]:
+        fails.append({"kind": "a_worker_set_the_shared_stop_signal"})
+    if tr.get("jobs_left"):
+        fails.append({"kind": "jobs_left_although_no_stop_was_signalled", "jobs": tr["jobs_left"]})
+    return fails
+
+
 def run(chk):
     pipefam.standard_obligations(chk, "C20.v")
     L = 10 if chk.tier == "quick" else 13
@@ -182,6 +206,19 @@ def run(chk):
             nv += 1
             chk.violation("real WorkerProcess with real queues: not exactly one result per job in order / sentinel not put back / worker did not exit",
                           {"real_process": rq_, "outcome": {k: rep.get(k) for k in ("ok", "exc", "msg", "got", "exitcode", "still_alive", "sentinel_back", "seconds")}})
+    # two workers sharing the queues and the stop signal: the sibling runs while this worker is inside execute_job
+    scases = [{"jobs": list(range(1, n + 1)), "when": w} for n in range(1, 6) for w in range(1, n + 1)]
+    rep = pool.run_requests([{"op": "worker.siblings", "cases": scases}], timeout=60)[0]
+    chk.oblige("sibling schedules executed on two real WorkerProcess objects", bool(rep.get("ok")), json.dumps(rep)[:1500] if not rep.get("ok") else "")
+    for c, tr in zip(scases, rep.get("traces", []) if rep.get("ok") else []):
+        chk.cov["evaluations"] += 1
+        chk.count("sibling_schedules")
+        sf = sibling_failures(c, tr)
+        if sf:
+            nv += 1
+            if nv <= 3:
+                chk.violation("two workers sharing queues and stop signal: a job taken has no result / wrong order / sentinel not left",
+                              {"siblings": c, "trace": tr, "failures": sf})
     chk.cov["exhaustive_well_typed_scripts_up_to_length"] = L
     chk.cov["exhaustive_count"] = n_ex
     chk.sample({"script": scripts[0], "trace": traces[0]})
@@ -195,6 +232,11 @@ def replay(chk, rp):
         print(json.dumps(rep, indent=1, default=str))
         n = rp["real_process"]["n"]
         return 0 if (rep.get("ok") and rep["got"] == list(range(n)) and rep["exitcode"] == 0 and rep["sentinel_back"]) else 1
+    if "siblings" in rp:
+        rep = pool.run_requests([{"op": "worker.siblings", "cases": [rp["siblings"]]}])[0]
+        sf = sibling_failures(rp["siblings"], rep["traces"][0])
+        print(json.dumps({"trace": rep["traces"][0], "failures": sf}, indent=1))
+        return 1 if sf else 0
     rep = pool.run_requests([{"op": "worker.scripts", "scripts": [rp["script"]]}])[0]
     pf = property_failures(rp["script"], rep["traces"][0])
     print(json.dumps({"trace": rep["traces"][0], "failures": pf}, indent=1))
